@@ -229,8 +229,18 @@ def st_Assign(ip, s, st):
         t = ip.reg.l_empty_canonical(ip.lst_sort(args[0]))
         st.env[s.targets[0].id] = ip.new_cell(st, LstCell(t))
         return [("next", st, None)]
+    if (ip.c is not None and len(s.targets) == 1 and isinstance(s.targets[0], ast.Name) and st.depth == 0
+            and s.targets[0].id in getattr(ip.c, "local_types", {}) and isinstance(s.value, ast.DictComp)):
+        from .iet import assign_dictcomp          # `name = {k: [] for k in <set of strings>}` (pyvc/iet.py)
+        r = assign_dictcomp(ip, s, st)
+        if r is not None:
+            return r
     for s2, v in ip.ev(s.value, st):
         ok = True
+        if (ip.c is not None and len(s.targets) == 1 and isinstance(s.targets[0], ast.Name) and st.depth == 0
+                and getattr(ip.c, "local_types", {}).get(s.targets[0].id, "").startswith("PyList[")):
+            from .lib_graph import retype_new_lists       # `name = [[] for _ in names]`: the new empty lists as Lst[T]
+            retype_new_lists(ip, s2, st, v, ip.c.local_types[s.targets[0].id])
         for t in s.targets:
             for s3 in assign_to(ip, t, v, s2):
                 outs.append(("next", s3, None))
@@ -248,6 +258,25 @@ def assign_to(ip, target, v, st):
     if isinstance(target, ast.Name):
         st.env[target.id] = v
         return [st]
+    if isinstance(target, (ast.Tuple, ast.List)) and isinstance(v, Opaque) and v.sort == "V" and len(target.elts) == 2 \
+            and ip.c is not None and ip.c.ghost.get("v_unpack_pair") and not any(isinstance(t, ast.Starred) for t in target.elts):
+        # Contract(ghost={"v_unpack_pair": True}): `data, context = val` for an abstract flow value that IS a (data, context)
+        # pair (obligation: v_has_context(val); what python does with a value of another shape is not modelled): the data
+        # part and the value's own context object, exactly as lena.flow.get_data_context hands them out
+        from .lib import value_context
+        hc = ip.reg.ufun("v_has_context", ["V"], "Bool")
+        cond = T("(%s %s)" % (hc, v.t.s), "Bool")
+        if not ip.spec_mode:
+            ip.emit("safety", "unpacked flow value is a (data, context) pair", st, cond)
+        st.assume(cond)
+        ip.assumptions.add("flow values of the abstract sort V: v_has_context(v) tells a (data, context) pair from bare data; "
+                           "get_data_context / get_data / get_context of lena.flow.functions on V follow their docstrings")
+        fd = ip.reg.ufun("vdata", ["V"], "V")
+        parts = [Opaque(T("(%s %s)" % (fd, v.t.s), "V")), value_context(ip, st, v)]
+        states = [st]
+        for t, x in zip(target.elts, parts):
+            states = [s3 for s2 in states for s3 in assign_to(ip, t, x, s2)]
+        return states
     if isinstance(target, (ast.Tuple, ast.List)) and isinstance(v, Opaque) and v.sort == "V" \
             and ip.c is not None and ip.c.ghost.get("v_unpack") and not any(isinstance(t, ast.Starred) for t in target.elts):
         # Contract(ghost={"v_unpack": True}): an abstract flow value unpacked into n names is a sequence of n items, each
@@ -585,6 +614,10 @@ def handler_classes(ip, h, st):
             names.append(v.name)
         elif isinstance(v, Fun) and v.kind == "unbound":
             names.append("?unbound:" + v.name)
+        elif isinstance(v, Fun) and v.kind == "external" and not v.mod.startswith("lena"):
+            # an exception class of a third-party library (jinja2.exceptions.UndefinedError): it is no base class of any
+            # builtin or lena exception, so it catches only what a library model raises under this very name
+            names.append("ext:%s.%s" % (v.mod, v.name))
         else:
             raise U("except clause class %r" % (v,))
     return names
@@ -1122,8 +1155,11 @@ def call_frame(ip, call, h):
             c = ip.contracts.find_method(h.heap[ov.cid].cls, "__next__")
             if c is None:
                 return []
-            if c.inline or c.cases:
-                raise U("next(obj) in a loop body: %s needs one plain contract with a `modifies` frame" % c.name)
+            if c.inline:
+                raise U("next(obj) in a loop body: %s needs a contract with a `modifies` frame" % c.name)
+            if c.cases:
+                from .calls import select_case          # (the case that accepts this object, as at the call itself)
+                c = select_case(ip, h.copy(), c, [ov], {})
             if not c.modifies:
                 return []
             out = []
@@ -1240,7 +1276,7 @@ def st_While_(ip, s, st):
     k = loop_ordinal(ip, s)
     spec = ip.loop_spec(k)
     if spec is None:
-        raise U("loop #%s (while) needs an invariant in the contract" % k)
+        return while_concrete(ip, s, st, k)
     ghost_init(ip, spec, st)
     check_invariants(ip, k, spec, st, "init")
     h = st.fork(None, "L%s:" % k)
@@ -1272,6 +1308,42 @@ def st_While_(ip, s, st):
             x = s2.fork(NOT(c), "X.") if c.s != "false" else s2
             outs.append(("next", x, None))
     return outs
+
+
+def while_concrete(ip, s, st, k, cap=400):
+    """a while loop without a spec whose test evaluates to the literal True / False in every state that reaches it (code
+    running on concrete values, e.g. a parser over a string literal): executed iteration by iteration, exactly as python
+    does.  A test that is not decided by the state, or more than `cap` iterations: out-of-subset, as before."""
+    outs = []
+    states = [st]
+    ip.concrete_while = getattr(ip, "concrete_while", 0) + 1     # (== of two integer literals is decided, Interp.py_eq)
+    try:
+        for n in range(cap + 1):
+            if not states:
+                return outs
+            if n == cap:
+                break
+            nxt = []
+            for x in states:
+                for s2, v in ip.ev(s.test, x):
+                    c = ip.truth(s2, v)
+                    if c.s == "false":
+                        outs.append(("next", s2, None))
+                        continue
+                    if c.s != "true":
+                        raise U("loop #%s (while) needs an invariant in the contract" % k)
+                    s2.trace += "w%d." % n
+                    for kind, s3, payload in exec_block(ip, s.body, s2):
+                        if kind in ("next", "continue"):
+                            nxt.append(s3)
+                        elif kind == "break":
+                            outs.append(("next", s3, None))
+                        else:
+                            outs.append((kind, s3, payload))
+            states = nxt
+    finally:
+        ip.concrete_while -= 1
+    raise U("loop #%s (while) without an invariant: more than %d concrete iterations" % (k, cap))
 
 
 def ghost_init(ip, spec, st):
@@ -1367,6 +1439,8 @@ def for_over(ip, s, st, itv):
         if spec is None:
             raise U("loop #%s (for over a dict) needs an invariant" % k)
         return for_dict(ip, s, st, itv, k, spec)
+    if isinstance(itv, Ref) and not itv.path and type(st.heap[itv.cid]).__name__ == "KeyMapCell":
+        itv = Fun("mapview", recv=itv, name="keys")          # `for k in m` over a dict of lists: its keys
     if isinstance(itv, Fun) and itv.kind == "mapview":
         from .keymap import for_keymap
         if spec is None:
@@ -1377,6 +1451,28 @@ def for_over(ip, s, st, itv):
         if spec is None:
             raise U("loop #%s (for over dict items) needs an invariant" % k)
         return for_dict(ip, s, st, itv.recv, k, spec, mode=itv.name)
+    if isinstance(itv, Ref) and not itv.path and isinstance(st.heap[itv.cid], ObjCell):
+        k_it = ip.contracts.find_method(st.heap[itv.cid].cls, "__iter__")
+        if k_it is not None and k_it.inline:
+            # the class's __iter__ is executed in place (it hands out an iterator over a sequence the object holds, e.g.
+            # LenaSequence: `return self._seq.__iter__()`): the loop runs over what that iterator delivers
+            from .builtins_ import instance_iter_view
+            view = instance_iter_view(ip, st, itv)
+            if view.items is not None:
+                return unroll(ip, s, st, view.items)
+            if spec is None:
+                raise U("loop #%s (for over a sequence object of symbolic length) needs an invariant" % k)
+            it = ip.new_cell(st, IterCell(view, I(0)))
+            return for_iterator(ip, s, st, it, k, spec, is_list=True)
+        from .lib_sib import for_object          # an instance of a repository class with __iter__ / __next__ contracts
+        return for_object(ip, s, st, itv, k, spec)
+    if isinstance(itv, Ref) and type(st.heap[itv.cid]).__name__ in ("PySetCell", "SymSetCell"):
+        from .lib_graph import set_iteration_items          # a set of strings: its members in an unknown order
+        return unroll(ip, s, st, set_iteration_items(ip, st, itv))
+    if isinstance(itv, Opaque) and itv.sort == "Obj" and not ip.spec_mode:
+        # iterating an abstract object is not modelled: such a path must be infeasible (obligation), it is not continued
+        ip.emit("safety", "for over an abstract object: the path is infeasible (iterating it is not modelled)", st, FALSE)
+        return []
     view = ip.as_view(st, itv)
     if view.items is not None:
         return unroll(ip, s, st, view.items)
@@ -1415,6 +1511,12 @@ def for_iterator(ip, s, st, it, k, spec, is_list=False):
     i_t = ip.reg.new("_i%d" % k, "Int")
     start_cell = h.heap[it.cid]
     havoc_loop(ip, s, h, spec, s.body)
+    for tn in ast.walk(s.target):
+        # a loop TARGET the code reads after the loop (`x_ind` leaking out of `for x_ind, x in ...`): declared in
+        # LoopSpec.ghost, it holds at the loop head (hence at the exit) an unknown value of that type -- what it is after
+        # i iterations is for the invariant to say (checked at the end of every iteration, where it is the item just bound)
+        if isinstance(tn, ast.Name) and tn.id in spec.ghost:
+            h.env[tn.id] = ip.make(spec.ghost[tn.id], tn.id, h)
     # the loop's own iterator advances with the ghost counter
     cell = h.heap[it.cid]
     if getattr(cell, "kind", None) is None:
